@@ -17,6 +17,51 @@ fn res_dump(r: Option<Result<Ontology, hpo::HpoError>>) -> V {
     }
 }
 
+/// Ontology::from_bytes on arbitrary (damaged) bytes, in a process of its own (this binary in `load` mode):
+/// a term record that announces length 0 makes the loader read the same record forever, and a parent section that
+/// closes an is_a cycle makes connect_all_terms recurse until the stack overflows (the process aborts; nothing to
+/// catch).  The model runs out of fuel on exactly those inputs, so a child that is killed after 4 seconds or dies
+/// from a signal is reported as `Fuel`; everything else is the child's own report (dump, error or panic).
+fn load_bounded(x: Vec<u8>) -> (bool, V) {
+    use std::io::Read;
+    use std::process::{Command, Stdio};
+    let hex: String = x.iter().map(|b| format!("{b:02x}")).collect();
+    let exe = std::env::current_exe().expect("current_exe");
+    let mut child = Command::new(exe).arg("load").arg(hex).stdout(Stdio::piped()).stderr(Stdio::null()).spawn().expect("spawn load child");
+    let start = std::time::Instant::now();
+    let mut out = String::new();
+    // the report is one line of a few kB at most (an ontology of < 10 terms): read after exit
+    loop {
+        match child.try_wait().expect("try_wait") {
+            Some(status) => {
+                if let Some(mut so) = child.stdout.take() {
+                    let _ = so.read_to_string(&mut out);
+                }
+                if !status.success() || out.trim().is_empty() {
+                    return (false, V::C("Fuel", vec![]));
+                }
+                let line = out.trim().to_string();
+                let accepted = line.starts_with("(Ok");
+                return (accepted, V::Raw(line));
+            }
+            None => {
+                if start.elapsed() > std::time::Duration::from_secs(4) {
+                    let _ = child.kill();
+                    let _ = child.wait();
+                    return (false, V::C("Fuel", vec![]));
+                }
+                std::thread::sleep(std::time::Duration::from_micros(300));
+            }
+        }
+    }
+}
+
+pub fn load_child(hex: &str) {
+    let bytes_in: Vec<u8> = (0..hex.len() / 2).map(|i| u8::from_str_radix(&hex[2 * i..2 * i + 2], 16).expect("hex")).collect();
+    let r = crate::catch(std::panic::AssertUnwindSafe(|| Ontology::from_bytes(&bytes_in)));
+    println!("{}", res_dump(r));
+}
+
 fn class(bs: &[u8]) -> V {
     match crate::catch(std::panic::AssertUnwindSafe(|| Ontology::from_bytes(bs).map(|_| ()))) {
         None => n(2u32),
@@ -104,6 +149,22 @@ pub fn cases_c08(rng: &mut Rng, count: usize, tier: &str) -> Vec<Case> {
             }
             v
         };
+        // single-byte mutants of the file: a random value, a neighbouring value, 0, or a copy of another byte of the
+        // file (the last one produces repeated and absent ids more often than chance would)
+        let mut muts: Vec<(usize, u8)> = vec![];
+        for _ in 0..(if tier == "thorough" { 24 } else { 12 }) {
+            let pos = rng.below(file.len() as u64) as usize;
+            let val = match rng.below(5) {
+                0 => rng.below(256) as u8,
+                1 => file[pos].wrapping_add(1),
+                2 => file[pos].wrapping_sub(1),
+                3 => 0,
+                _ => file[rng.below(file.len() as u64) as usize],
+            };
+            if val != file[pos] {
+                muts.push((pos, val));
+            }
+        }
         let input = V::T(vec![
             bytes(&file),
             n(version),
@@ -111,7 +172,9 @@ pub fn cases_c08(rng: &mut Rng, count: usize, tier: &str) -> Vec<Case> {
             V::L(flags),
             V::L(suffixes.iter().map(|s| bytes(s)).collect()),
             V::L(vbytes.iter().map(|x| n(*x)).collect()),
-            dump::ln_table(f.n_records()),
+            // a mutated length field can move records from one annotation section into another
+            dump::ln_table(f.genes.len() + f.omim.len() + f.orpha.len() + 1),
+            V::L(muts.iter().map(|(p, v)| V::T(vec![n(*p as u32), n(*v)])).collect()),
         ]);
         let valid = res_dump(crate::catch(std::panic::AssertUnwindSafe(|| Ontology::from_bytes(&file))));
         let built = match build::run(&script) {
@@ -144,6 +207,23 @@ pub fn cases_c08(rng: &mut Rng, count: usize, tier: &str) -> Vec<Case> {
                 }
             })
             .collect();
+        let mut accepted_mutants = 0usize;
+        let mut hung_mutants = 0usize;
+        let mt: Vec<V> = muts
+            .iter()
+            .map(|(p, v)| {
+                let mut x = file.clone();
+                x[*p] = *v;
+                let (accepted, d) = load_bounded(x);
+                if accepted {
+                    accepted_mutants += 1;
+                }
+                if matches!(&d, V::C(c, _) if *c == "Fuel") {
+                    hung_mutants += 1;
+                }
+                d
+            })
+            .collect();
         let mut tags = vec![match version {
             1 => "v1",
             2 => "v2",
@@ -152,7 +232,13 @@ pub fn cases_c08(rng: &mut Rng, count: usize, tier: &str) -> Vec<Case> {
         if f.has(1) && f.has(118) {
             tags.push("nt");
         }
-        out.push(Case { input, obs: V::T(vec![valid, built, V::L(truncs), V::L(sfx), V::L(vb)]), tags });
+        if accepted_mutants > 0 {
+            tags.push("accepted_mutant");
+        }
+        if hung_mutants > 0 {
+            tags.push("nonterminating_mutant");
+        }
+        out.push(Case { input, obs: V::T(vec![valid, built, V::L(truncs), V::L(sfx), V::L(vb), V::L(mt)]), tags });
     }
     out
 }
